@@ -15,6 +15,8 @@ Decided:
   R18.4  case: the five case-insensitive fields are upper-cased before validation, and again by the
          API functions the loader calls with the raw file contents
   R18.5  the worker returns 0 only after write_output_files
+  R18.7  the two dispatch validators refuse a name that is not in their name -> schema map (a .get fallback is accepted only
+         onto a schema that pins the key with `enum`; draft-04 validators ignore `const`)
   R18.6  option and name matching in the command-line layer and the validators is by equality or by membership in a
          collection: no `x in <string>` (a parenthesised literal is not a tuple)
 
@@ -292,6 +294,45 @@ def check(prog: Program, tier: str) -> Result:
 
     _check_sections(prog, res)
     _check_case(prog, res)
+    # R18.7 dispatch validators: a name that is not in the name -> schema map is refused.  Accepted: the subscript MAP[name]
+    #       (after a membership test, or raising KeyError = non-zero status), or MAP.get(name, F) when schema F itself refuses
+    #       other names with an `enum` (the schemas declare draft-04, whose validator ignores `const`)
+    from ..custody import root_of as _root
+
+    n_disp = 0
+    for vname in ("validate_pipe", "validate_geometric"):
+        vfi = prog.func(f"{VAL}.{vname}")
+        maps = {s_.targets[0].id: s_.value for s_ in ast.walk(vfi.node) if isinstance(s_, ast.Assign) and len(s_.targets) == 1 and isinstance(s_.targets[0], ast.Name) and isinstance(s_.value, ast.Dict)}
+        for c_ in [c_ for c_ in ast.walk(vfi.node) if isinstance(c_, ast.Call) and attr_chain(c_.func) == "validate_schema_instance"]:
+            b_ = bind_args(prog.func(f"{VAL}.validate_schema_instance"), c_)
+            sexp = b_.get("schema_file_name")
+            if isinstance(sexp, ast.Name):
+                d_ = [s_.value for s_ in ast.walk(vfi.node) if isinstance(s_, ast.Assign) and len(s_.targets) == 1 and isinstance(s_.targets[0], ast.Name) and s_.targets[0].id == sexp.id]
+                sexp = d_[0] if len(d_) == 1 else sexp
+            n_disp += 1
+            ok, why = False, f"the schema is chosen by {ast.unparse(sexp)[:60]}"
+            if isinstance(sexp, ast.Subscript) and isinstance(sexp.value, ast.Name) and sexp.value.id in maps:
+                ok, why = True, "MAP[name]"
+            elif isinstance(sexp, ast.Call) and isinstance(sexp.func, ast.Attribute) and sexp.func.attr == "get" and isinstance(sexp.func.value, ast.Name) and sexp.func.value.id in maps and len(sexp.args) == 2:
+                dflt = sexp.args[1]
+                keyname = None
+                for s_ in ast.walk(vfi.node):  # instance["<key>"] = name
+                    if isinstance(s_, ast.Assign) and isinstance(s_.targets[0], ast.Subscript) and isinstance(s_.targets[0].slice, ast.Constant):
+                        keyname = s_.targets[0].slice.value
+                sch = prog.schemas.get(dflt.value) if isinstance(dflt, ast.Constant) else None
+                pdef = (sch or {}).get("properties", {}).get(keyname, {}) if keyname else {}
+                draft4 = "draft-04" in str((sch or {}).get("$schema", ""))
+                pins = "enum" in pdef or ("const" in pdef and not draft4)
+                ok = sch is not None and pins and keyname in (sch.get("required") or [])
+                why = f"MAP.get(name, {ast.unparse(dflt)[:40]}): that schema " + ("refuses other names itself" if ok else f"does not refuse other names ({'its const on ' + repr(keyname) + ' is ignored by the draft-04 validator' if 'const' in pdef else 'no enum on ' + repr(keyname)})")
+            else:
+                raise AnalysisError(f"{VAL}.{vname}: how the schema is chosen is not understood ({ast.unparse(sexp)[:60]})")
+            res.ob("R18.7", f"{vname}: a name outside the map is refused ({why})", ok, prog.loc(vfi, c_))
+            if not ok:
+                res.violation("R18.7", f"dispatch-fallback|{vname}", prog.loc(vfi, c_), vfi.qualname,
+                              f"{vname}: {why}: an input with an unknown name is validated against the fallback schema and accepted - the verdict is 'valid' for a file the tool cannot run")
+    if n_disp < 2:
+        raise AnalysisError("dispatch validators not found")
     # R18.6 options and names are matched by equality / membership in a collection, never as substrings
     from ..memo import substring_tests
 
@@ -659,6 +700,12 @@ _VIF_NEW = """    err_count = validate_file_structure(instance)
 """
 
 VARIANTS = [
+    Variant("unknown design method falls back to the rectangle schema, whose const the draft-04 validator ignores (seeded C18_g)", "break",
+            [(VAL, '    if method not in schema_map:\n        print("Geometric constraint method not recognized.", file=sys.stderr)\n        return 1\n\n    return validate_schema_instance(\n        schema_file_name=schema_map[method],',
+              '    return validate_schema_instance(\n        schema_file_name=schema_map.get(method, "geometric_rectangle.schema.json"),')], "R18.7"),
+    Variant("unknown pipe arrangement falls back to the u-tube schema, which lists the allowed names in an enum", "benign",
+            [(VAL, '    if pipe_arrangement not in schema_map:\n        print("Pipe arrangement not found.", file=sys.stderr)\n        return 1\n\n    return validate_schema_instance(\n        schema_file_name=schema_map[pipe_arrangement],',
+              '    return validate_schema_instance(\n        schema_file_name=schema_map.get(pipe_arrangement, "pipe_single_double_u_tube.schema.json"),')]),
     Variant("table-driven validate_input_file with the soil row pointing at the grout validator (seeded C18_e)", "break",
             [(VAL, "def validate_input_file(", "SECTION_VALIDATORS = (\n    (\"fluid\", validate_fluid),\n    (\"grout\", validate_grout),\n    (\"soil\", validate_grout),\n    (\"pipe\", validate_pipe),\n    (\"borehole\", validate_borehole),\n    (\"simulation\", validate_simulation),\n    (\"geometric_constraints\", validate_geometric),\n    (\"design\", validate_design),\n    (\"loads\", validate_loads),\n)\n\n\ndef validate_input_file("),
              (VAL, _VIF_OLD, _VIF_NEW)], "R18.3"),
